@@ -170,7 +170,7 @@ func (v *Verifier) propCheck(prop, tier string, seed int, update bool, t0 time.T
 	timeout := 20
 	all := false
 	if tier == "thorough" {
-		timeout, all = 120, true
+		timeout, all = 60, true
 	}
 	runs, roots := v.cone(prop)
 	if len(roots) == 0 && extra == nil {
@@ -324,6 +324,41 @@ func (v *Verifier) propCheck(prop, tier string, seed int, update bool, t0 time.T
 			}
 		}
 	}
+	if (prop == "C08" || prop == "C11" || prop == "C09") && os.Getenv("VERIF_REPO") == "" {
+		n, bad, first := specVectors(v)
+		v.specCheck = map[string]interface{}{"what": "the contract-level specification (expand_message_xmd, hash_to_field, SSWU, isogeny, group law) evaluated by the concrete evaluator on the RFC 9380 vectors of /repo/tests/h2c, without running the library", "vectors": n, "mismatches": bad}
+		if bad > 0 {
+			fmt.Println("ENGINE-ERROR: the specification in the contract files disagrees with an RFC 9380 test vector:", first)
+			rc = 2
+		}
+	}
+	if tier == "thorough" && os.Getenv("VERIF_REPO") == "" {
+		var sw []sweepResult
+		tot, fl := 0, 0
+		for _, n := range roots {
+			r := v.sweepFunc(n, 150, int64(seed)+11, 2)
+			sw = append(sw, r)
+			tot += r.Runs
+			fl += r.False
+			if r.False > 0 {
+				fmt.Printf("ENGINE-ERROR: contract sweep: a clause of %s that was proved evaluates to false on the real code: %s\n", n, truncate(r.Witness, 800))
+				rc = 2
+			}
+		}
+		v.sweep = map[string]interface{}{"label": "bounded (not counted in obligations/discharged)",
+			"what": "the real functions tagged with this property run on boundary-biased vectors through the overlay harness; every contract clause evaluated on the observed values",
+			"runs": tot, "false_clauses": fl, "functions": sw}
+	}
+	if tier == "thorough" && prop == "C08" && os.Getenv("VERIF_REPO") == "" {
+		e, nt, f, w := testIsoHom(v, 2000, int64(seed)+1)
+		v.bounded = map[string]interface{}{"label": "bounded (not counted in obligations/discharged)",
+			"what":            "the assumed lemma iso_hom_chord evaluated with the concrete evaluator on pairs of points of E' obtained as SSWU images of random field elements",
+			"pairs_evaluated": e, "pairs_with_hypotheses_true": nt, "false": f, "witness": w}
+		if f > 0 {
+			fmt.Println("ENGINE-ERROR: the assumed lemma iso_hom_chord is false on a concrete pair:", w)
+			rc = 2
+		}
+	}
 	v.writeEvidence(prop, tier, seed, runs, names, results, engineErrs, nviol, time.Since(t0).Seconds())
 	nd := 0
 	for _, r := range results {
@@ -423,6 +458,15 @@ func (v *Verifier) writeEvidence(prop, tier string, seed int, runs map[string]*F
 			"explanation": "every obligation is a set of SMT queries (one per aliasing/nil/length case and path) generated from /repo's current source; 'discharged' means every sub-query was unsat",
 		},
 		"assumptions": assumptions,
+	}
+	if v.specCheck != nil {
+		ev["coverage"].(map[string]interface{})["spec_validation"] = v.specCheck
+	}
+	if v.sweep != nil {
+		ev["coverage"].(map[string]interface{})["bounded_sweep"] = v.sweep
+	}
+	if v.bounded != nil {
+		ev["coverage"].(map[string]interface{})["bounded_support"] = v.bounded
 	}
 	if v.mustFail != nil {
 		ev["coverage"].(map[string]interface{})["must_fail_corpus"] = v.mustFail
